@@ -197,6 +197,17 @@ func (maps *trackedMaps) processUnfiltered(ctx context.Context, ef *Filter, filt
 			ftype := field.Type()
 			fkind := field.Kind()
 
+			if fPtr && isStringOrBytes(field) && field.CanSet() {
+				// the map holds a pointer to a string or []byte: filter what it
+				// points to, so the map keeps its pointer (and its element type).
+				f, err := ef.filterUnclassifiedValue(ctx, field, classificationTag, opt...)
+				if err != nil {
+					return fmt.Errorf("%s: unable to filter %s: %w", op, ftype, err)
+				}
+				field.Set(f)
+				continue
+			}
+
 			switch {
 			// if the field is a string or []byte then we just need to sanitize it
 			case ftype == reflect.TypeOf(""):
